@@ -271,8 +271,9 @@ def run(ctx: Ctx):
                 "receive_cer finds and records the configured peer under the case-normalised "
                 "Origin-Host (the identity the application routes are keyed by)", floor=1,
                 constructs=lambda c: c.endswith("#case"))
-    from .common_node import identity_semantics
+    from .common_node import identity_semantics, realm_key_case
     identity_semantics(ctx, "C08-R7")
+    realm_key_case(ctx, "C08-R10")
     from . import c20
     ctx.include(c20.run, {"C20-R4"}, "C08-R8",
                 "the error answers the node makes itself (3003 / 3007 / 5005 / 5012) actually carry "
@@ -339,7 +340,7 @@ def _app_request(ctx: Ctx, R: RecvModel, E):
     if realm is None or (realm, "in-expr", "self._peer_routes", True) not in facts:
         ctx.fail(cons + "#realm", g.loc(dn), "a request is delivered without its Destination-Realm "
                  "being served by this node")
-    elif ast.unparse(realm_defs[0].ast.value) != f"{msg}.destination_realm.decode()":
+    elif not _is_decoded_realm(realm_defs[0].ast.value, msg):
         ctx.fail(cons + "#realm-src", g.loc(realm_defs[0]), "the realm used for routing is not the "
                  "request's Destination-Realm")
     # definitions of the selected application
@@ -479,6 +480,15 @@ def _app_request(ctx: Ctx, R: RecvModel, E):
     for c in [acls] + model.subclasses(acls):
         if "__bool__" in c.methods or "__len__" in c.methods:
             ctx.fail("Application:truthy", c.loc(), f"{c.name} defines __bool__/__len__")
+
+
+def _is_decoded_realm(v, msg) -> bool:
+    """<msg>.destination_realm.decode(...), optionally case-normalised."""
+    if isinstance(v, ast.Call) and isinstance(v.func, ast.Attribute) and v.func.attr in ("lower", "casefold") \
+            and not v.args:
+        v = v.func.value
+    return isinstance(v, ast.Call) and isinstance(v.func, ast.Attribute) and v.func.attr == "decode" \
+        and ast.unparse(v.func.value) == f"{msg}.destination_realm"
 
 
 def _routes(ctx: Ctx, model, nc):
